@@ -70,7 +70,8 @@ fn main() {
             let mut idx = 0u64;
             for mech in ["none", "st", "lt"] {
                 for fp in [false, true] {
-                    for reliable in [false, true] {
+                    let transports: &[bool] = if arg(&args, "--transports", "both") == "both" { &[false, true] } else { &[false] };
+                    for &reliable in transports {
                         let cfg = Cfg { reliable, timeout_us: 5_000_000, rto_us: 500_000, gran_us: 1000, rm: 16, rc: 7,
                             mech: mech.to_string(), st_preset: "none".to_string(), fp, max_tx: 10,
                             user: "alice".to_string(), password: "s3cret-pass".to_string() };
